@@ -123,3 +123,5 @@ var errMismatch = errors.New("mismatch")
 func mismatch(format string, a ...interface{}) error {
 	return fmt.Errorf("%w: "+format, append([]interface{}{errMismatch}, a...)...)
 }
+
+func sortStrings(s []string) { sort.Strings(s) }
